@@ -162,7 +162,3 @@ Theorem boost_is_quad_residue_negative_modulus :
   nt_is_quad_residue BOOST 5 (-9) = ErrExn EXN_STD /\ nt_is_quad_residue GMP 5 (-9) = Ok false.
 Proof. split; vm_compute; reflexivity. Qed.
 
-(* boost configuration: mp_powm adds the (negative) modulus to a negative result *)
-Theorem boost_powermod_negative_modulus :
-  nt_powermod BOOST (-3) 3 (-5) = Ok (Some (-7)) /\ nt_powermod GMP (-3) 3 (-5) = Ok (Some 3).
-Proof. split; vm_compute; reflexivity. Qed.
